@@ -23,6 +23,10 @@ pub struct Sizes {
     pub g3: Vec<usize>,
     /// property-section sizes (v5): the section's own length prefix on a width boundary
     pub g3p: Vec<usize>,
+    /// dense size sweep: a packet of *every* remaining length 8..=dense.0 (and every `dense.2`-th up
+    /// to dense.1), and a v5 property section of every size 5..=dense.3 — whatever internal block,
+    /// chunk or staging-buffer size an implementation has below that bound is crossed exactly
+    pub dense: (usize, usize, usize, usize),
 }
 
 pub fn sizes(ctx: &Ctx, layer: &str) -> Sizes {
@@ -38,10 +42,10 @@ pub fn sizes(ctx: &Ctx, layer: &str) -> Sizes {
         g3p.extend_from_slice(&[2_097_151, 2_097_152, 2_097_153, 2_097_155, 2_097_156]);
     }
     match layer {
-        "miri" => Sizes { g1: if ctx.thorough { 4000 } else { 160 }, g2_cap: 2, g3: vec![127, 128], g3p: vec![127, 128, 129] },
-        "vg" => Sizes { g1: if ctx.thorough { 60_000 } else { 8000 }, g2_cap: if ctx.thorough { 64 } else { 16 }, g3: vec![127, 128, 129, 16_383, 16_384, 16_385, 2_097_152], g3p: vec![127, 128, 129, 16_384] },
-        "asan" => Sizes { g1: if ctx.thorough { 400_000 } else { 20_000 }, g2_cap: 64, g3, g3p },
-        _ => Sizes { g1: if ctx.thorough { 15_000_000 } else { 300_000 }, g2_cap: if ctx.thorough { u32::MAX } else { 4096 }, g3, g3p },
+        "miri" => Sizes { g1: if ctx.thorough { 4000 } else { 160 }, g2_cap: 2, g3: vec![127, 128], g3p: vec![127, 128, 129], dense: (0, 0, 1, 0) },
+        "vg" => Sizes { g1: if ctx.thorough { 60_000 } else { 8000 }, g2_cap: if ctx.thorough { 64 } else { 16 }, g3: vec![127, 128, 129, 16_383, 16_384, 16_385, 2_097_152], g3p: vec![127, 128, 129, 16_384], dense: (0, 0, 1, 0) },
+        "asan" => Sizes { g1: if ctx.thorough { 400_000 } else { 20_000 }, g2_cap: 64, g3, g3p, dense: (0, 0, 1, 0) },
+        _ => Sizes { g1: if ctx.thorough { 15_000_000 } else { 300_000 }, g2_cap: if ctx.thorough { u32::MAX } else { 4096 }, g3, g3p, dense: (0, 0, 1, 0) },
     }
 }
 
@@ -186,6 +190,36 @@ where
                     }
                 }
             }
+            // G5: dense size sweep
+            let (d0, d1, step, dp) = sz.dense;
+            let mut t = 8usize;
+            let mut cnt = 0u64;
+            while t <= d1.max(d0) {
+                if t % n == w {
+                    let shape = ((t / n) % 8) as u8;
+                    let seed = r.next();
+                    let mut gr = Rng::new(seed);
+                    let rp = gen::gen_sized(&mut gr, fam, t, shape);
+                    let case = Case::new("valid", fam.n(), &[]).p("sized", t).p("shape", shape).p("seed", seed);
+                    f(c, r, fam, &rp, &case);
+                    cnt += 1;
+                }
+                t += if t < d0 { 1 } else { step.max(1) };
+            }
+            c.countn("g5.dense-remlen", cnt);
+            if fam == Fam::V5 {
+                let ctxs = [1u8, CTX_WILL, 2, 3, 4, 5, 6, 7, 8, 9, 10, 11, 14, 15];
+                let mut cnt = 0u64;
+                for t in 5..=dp {
+                    if t % n == w {
+                        let rp = gen::gen_props_sized(r, ctxs[(t / n) % ctxs.len()], t);
+                        let case = valid_case(fam, &rp);
+                        f(c, r, fam, &rp, &case);
+                        cnt += 1;
+                    }
+                }
+                c.countn("g5.dense-propsection", cnt);
+            }
         }
         c.countn(&format!("rolling.w{:02}", w), ROLLING.with(|h| h.get()) >> 1);
     });
@@ -310,8 +344,25 @@ pub fn short(p: &Pkt) -> String {
     }
 }
 
+/// Dense size sweep bounds per layer (see `Sizes::dense`).
+pub fn dense_for(ctx: &Ctx, layer: &str) -> (usize, usize, usize, usize) {
+    match layer {
+        "miri" => (0, 0, 1, 0),
+        "vg" => (600, 600, 1, 300),
+        "asan" => (8_000, 140_000, 31, 3_000),
+        _ => {
+            if ctx.thorough {
+                (140_000, 4_300_000, 257, 70_000)
+            } else {
+                (20_000, 140_000, 7, 20_000)
+            }
+        }
+    }
+}
+
 pub fn c01(ctx: &mut Ctx, layer: &str) {
-    let sz = sizes(ctx, layer);
+    let mut sz = sizes(ctx, layer);
+    sz.dense = dense_for(ctx, layer);
     for_valid(ctx, &sz, c01_case);
     if ctx.thorough && layer == "rel" {
         giant_roundtrip(ctx);
@@ -630,7 +681,8 @@ pub fn c02_oversize(ctx: &mut Ctx) {
 }
 
 pub fn c02(ctx: &mut Ctx, layer: &str) {
-    let sz = sizes(ctx, layer);
+    let mut sz = sizes(ctx, layer);
+    sz.dense = dense_for(ctx, layer);
     for_valid(ctx, &sz, c02_case);
     if layer != "miri" && layer != "vg" {
         c02_oversize(ctx);
